@@ -10124,6 +10124,14 @@ class WBEMConnection:  # pylint: disable=too-many-instance-attributes
         stats = self.statistics.start_timer(method_name)
         try:
 
+            NewIndication = self._iparam_instance(
+                NewIndication, 'NewIndication', required=True)
+
+            # Strip off path to avoid producing a VALUE.NAMEDINSTANCE element
+            # instead of the INSTANCE element required in EXPPARAMVALUE.
+            # Note, NewIndication is already a copy of the original parameter
+            NewIndication.path = None
+
             self._iexportcall(
                 method_name,
                 NewIndication=NewIndication)
